@@ -181,14 +181,38 @@ func run(c Case) ([]vk.Violation, vk.Info) {
 
 	// ---- (2) interval structure ----
 	cumStart := map[streamKey]time.Time{}
+	// where and when each instrument was created: the first delta interval of
+	// an instrument starts at its creation, every later one at the previous
+	// delta collection (whether or not the instrument reported anything then).
+	type born struct {
+		br bracket
+		at int // collections that preceded the creation
+	}
+	birth := map[string]born{}
+	for i, d := range syncDefs {
+		if w.createdAt[i] >= 0 {
+			birth[d.name] = born{w.syncBr[i], w.createdAt[i]}
+		}
+	}
+	for _, d := range obsDefs {
+		birth[d.name] = born{w.obsBr, 0}
+	}
 	for k, cy := range w.cycles {
-		prevBr, what := w.createBr, "instrument creation"
 		var prev *snap
 		if k > 0 {
-			prevBr, what, prev = w.cycles[k-1].DeltaBr, fmt.Sprintf("delta collection %d", k), w.cycles[k-1].Delta
+			prev = w.cycles[k-1].Delta
 		}
 		for _, name := range names(cy.Delta.Series) {
 			se := cy.Delta.Series[name]
+			b, known := birth[name]
+			if !known {
+				bad("unknown_metric", "collection %d: delta reader reports metric %q that was never created", k+1, name)
+				continue
+			}
+			prevBr, what := b.br, "the instrument's creation"
+			if k > b.at {
+				prevBr, what = w.cycles[k-1].DeltaBr, fmt.Sprintf("delta collection %d", k)
+			}
 			for _, set := range keys(se.Pts) {
 				p := se.Pts[set]
 				if !within(p.Start, prevBr) {
@@ -356,10 +380,12 @@ func run(c Case) ([]vk.Violation, vk.Info) {
 						bad("histogram_minmax", "collection %d: cumulative %s set #%d Min/Max = %v(%v)/%v(%v), over the deltas %v/%v (%v)", k+1, d.name, set, p.Min, p.HasMin, p.Max, p.HasMax, r.min, r.max, r.hasMinMax)
 					}
 					if d.kind == kHist {
-						if !sameF64s(p.Bounds, r.bounds) || len(p.Buckets) != len(r.buckets) {
+						if !sameF64s(p.Bounds, r.bounds) {
 							bad("histogram_bounds_differ", "collection %d: cumulative %s set #%d bounds %v, delta bounds %v", k+1, d.name, set, p.Bounds, r.bounds)
-						} else if !reflect.DeepEqual(p.Buckets, r.buckets) {
-							bad("histogram_buckets_running_total", "collection %d: cumulative %s set #%d BucketCounts = %v, running total of the deltas = %v", k+1, d.name, set, p.Buckets, r.buckets)
+						}
+						// every bucket, and the same number of buckets
+						if len(p.Buckets) != len(r.buckets) || !reflect.DeepEqual(p.Buckets, r.buckets) {
+							bad("histogram_buckets_running_total", "collection %d: cumulative %s set #%d BucketCounts = %v (%d buckets), running total of the deltas = %v (%d buckets)", k+1, d.name, set, p.Buckets, len(p.Buckets), r.buckets, len(r.buckets))
 						}
 					} else {
 						if p.Zero != r.zero {
@@ -480,8 +506,96 @@ func run(c Case) ([]vk.Violation, vk.Info) {
 	info.ClassIf(scaleDiffers, "expo_delta_and_cumulative_scales_differ")
 	info.ClassIf(expoCompared, "expo_buckets_compared")
 	info.ClassIf(gaugeRepeat, "gauge_recorded_twice_in_cycle")
-	info.ClassIf(c.Reuse, "resource_metrics_reused")
-	info.ClassIf(!c.Reuse, "resource_metrics_fresh(retained outputs re-read)")
+	// --- what the Collect calls were given, and what that memory held before ---
+	var rmFresh, rmOwn, rmPool, handover, slotShiftCum, slotShiftDelta, twoScopes, otherWidthMem, otherTypeMem bool
+	type held struct {
+		typ   string
+		float bool
+		width int
+	}
+	layout := map[string]map[[2]int]held{} // per reused ResourceMetrics: what each output slot held last
+	note := func(id string, sn *snap) {
+		switch {
+		case id == "fresh":
+			rmFresh = true
+			return
+		case strings.HasPrefix(id, "own"):
+			rmOwn = true
+		default:
+			rmPool = true
+		}
+		cur := map[[2]int]held{}
+		for name, se := range sn.Series {
+			h := held{typ: se.Type, float: se.Float}
+			for _, p := range se.Pts {
+				h.width = max(h.width, len(p.Buckets))
+			}
+			cur[sn.Slot[name]] = h
+			if was, ok := layout[id][sn.Slot[name]]; ok {
+				if was.typ == "hist" && h.typ == "hist" && was.float == h.float && was.width != h.width {
+					otherWidthMem = true
+				}
+				otherTypeMem = otherTypeMem || was.typ != h.typ
+			}
+		}
+		layout[id] = cur
+	}
+	for k, cy := range w.cycles {
+		// per reader the order in which the two Collects ran does not matter here
+		note(strings.Replace(cy.DeltaRMIs, "own", "own-delta", 1), cy.Delta)
+		note(strings.Replace(cy.CumRMIs, "own", "own-cum", 1), cy.Cum)
+		handover = handover || cy.Handover
+		for _, sl := range cy.Cum.Slot {
+			twoScopes = twoScopes || sl[0] > 0
+		}
+		if k > 0 {
+			for name, sl := range cy.Cum.Slot {
+				if was, ok := w.cycles[k-1].Cum.Slot[name]; ok && was != sl {
+					slotShiftCum = true
+				}
+			}
+			for name, sl := range cy.Delta.Slot {
+				if was, ok := w.cycles[k-1].Delta.Slot[name]; ok && was != sl {
+					slotShiftDelta = true
+				}
+			}
+		}
+	}
+	info.ClassIf(rmFresh, "rm:fresh(retained outputs re-read)")
+	info.ClassIf(rmOwn, "rm:reader_reuses_own_output")
+	info.ClassIf(rmPool, "rm:shared_pool_slot")
+	info.ClassIf(handover, "rm:output_of_one_reader_given_to_the_other")
+	info.ClassIf(otherWidthMem, "rm:explicit_hist_written_over_same_type_hist_of_other_width")
+	info.ClassIf(otherTypeMem, "rm:metric_written_over_other_data_type")
+	info.ClassIf(slotShiftCum, "output_slot_shift(cumulative)")
+	info.ClassIf(slotShiftDelta, "output_slot_shift(delta)")
+	info.ClassIf(twoScopes, "two_scopes_in_one_collection")
+	// explicit histograms of one number type with different numbers of buckets
+	for _, float := range []bool{false, true} {
+		widths, widthsByScope := map[int]bool{}, [2]map[int]bool{{}, {}}
+		for i, d := range syncDefs {
+			if d.kind != kHist || d.float != float {
+				continue
+			}
+			for _, cy := range w.cycles {
+				if se := cy.Cum.Series[d.name]; se != nil && len(cy.Recorded[i]) > 0 {
+					for _, p := range se.Pts {
+						widths[len(p.Buckets)] = true
+						widthsByScope[d.scope][len(p.Buckets)] = true
+					}
+				}
+			}
+		}
+		info.ClassIf(len(widths) >= 2, "explicit_hists_of_one_number_type_with_different_widths")
+		info.ClassIf(len(widthsByScope[0]) >= 2 || len(widthsByScope[1]) >= 2, "...in_one_scope")
+		info.ClassIf(len(widths) >= 2 && len(widthsByScope[0]) >= 1 && len(widthsByScope[1]) >= 1, "...across_two_scopes")
+	}
+	lateInst, lateScope := false, w.scopeAt[1] > 0
+	for i := range syncDefs {
+		lateInst = lateInst || w.createdAt[i] > 0
+	}
+	info.ClassIf(lateInst, "instrument_created_after_a_collection")
+	info.ClassIf(lateScope, "scope_first_used_after_a_collection")
 	for i, d := range syncDefs {
 		used := false
 		for _, cy := range w.cycles {
